@@ -542,7 +542,8 @@ class The(ResultQuantifier[T]):
                 result = sources
             else:
                 raise NoSolutionFound(self._child_)
-        else:
+        elif self._var_:
+            # only an entity has a single selected variable (a set of variables has none).
             result[self._id_] = result[self._var_._id_]
         return result
 
